@@ -97,6 +97,16 @@ func c10Dispatch(nmsg int, freeCut bool) {
 	typ := sym.U8("want-type-1")
 	q0 := make(chan *Message, 8)
 	q1 := make(chan *Message, 8)
+	// a one-shot handler (a pending call waiting for its reply) in the lowest slot: it takes the first
+	// message it selects and leaves the table during that very dispatch pass
+	shotSvc := sym.U32("want-service-oneshot")
+	qs := make(chan *Message, 8)
+	e.MakeHandler(func(h *Header) (bool, bool) {
+		if h.Service == shotSvc {
+			return true, false
+		}
+		return false, true
+	}, qs, nil)
 	e.MakeHandler(func(h *Header) (bool, bool) { return h.Service == svc[0], true }, q0, nil)
 	e.MakeHandler(func(h *Header) (bool, bool) { return h.Service == svc[1] && h.Type == typ, true }, q1, nil)
 	var sent []Message
@@ -147,6 +157,25 @@ func c10Dispatch(nmsg int, freeCut bool) {
 			}
 			i1++
 		}
+	}
+	// the one-shot handler: exactly the first message it selects, then its queue is closed
+	var gotS []*Message
+	for m := range qs {
+		gotS = append(gotS, m)
+	}
+	var firstShot *Message
+	for i := range sent {
+		if sent[i].Header.Service == shotSvc && firstShot == nil {
+			firstShot = &sent[i]
+		}
+	}
+	if firstShot != nil {
+		sym.Assert(len(gotS) == 1, "oneshot-handler-message-count")
+		if len(gotS) == 1 {
+			sym.Assert(zzSameMessage(*gotS[0], *firstShot), "oneshot-handler-wrong-message")
+		}
+	} else {
+		sym.Assert(len(gotS) == 0, "oneshot-handler-extra-message")
 	}
 	sym.Assert(i0 == len(got0), "handler0-extra-message")
 	sym.Assert(i1 == len(got1), "handler1-extra-message")
